@@ -312,7 +312,7 @@ def correspondence(ctx):
     cases = []
     for b in REGRESSION:
         cases += list(combos(ctx, rng, b))
-    for _ in range(ctx.n(26, 700)):
+    for _ in range(ctx.n(26, 520)):
         b = gen_base(rng, malformed_ok=rng.random() < 0.18)
         base_tags(ctx, b)
         cs = list(combos(ctx, rng, b))
@@ -516,7 +516,7 @@ def oracle(ctx, boost):
     rng = ctx.rng
     mult = 5 if boost else 1
     bases = list(REGRESSION) + [dict(b) for b in KNOWN_WITNESSES]
-    for _ in range(ctx.n(26, 600) * mult):
+    for _ in range(ctx.n(26, 460) * mult):
         b = gen_base(rng)
         if rng.random() < 0.04:
             b["w"] = gen_weight(rng, b, "above-one")
@@ -533,7 +533,7 @@ def oracle(ctx, boost):
         ctx.tag("weight-class:" + weight_class(c, s))
         check_crps(ctx, c, s, batch)
     # relations and the Brier decomposition on a sample of (base, options)
-    rel = rng.sample(list(zip(cases, specs)), min(len(cases), ctx.n(120, 2500) * mult)) + \
+    rel = rng.sample(list(zip(cases, specs)), min(len(cases), ctx.n(120, 2000) * mult)) + \
         [(c, s) for c, s in zip(cases[:48], specs[:48])]
     for c, s in rel:
         ctx.case("property:relations", c, nontrivial=True)
